@@ -1,4 +1,5 @@
 import LaunchpadModel.Model.Airdrop
+import LaunchpadModel.Model.AirdropCrypto
 import LaunchpadModel.Lemmas.Airdrop
 /-!
 # C16 — ETH airdrop: only the key holder claims, bound to one wallet, within limits
@@ -1046,5 +1047,138 @@ theorem valid1 : SigValid toy2 m1 sg m1 := by
 example : ¬ SigValid toy2 m2 sg m1 := fun h2 =>
   absurd (C16_sig_binds_text toy2 m1 m2 sg m1 noColl valid1 h2) (by decide)
 end Example2
+
+/-! ## Round 5: the concrete primitives (`realCrypto` = Lean Keccak-256 + Lean secp256k1, `Model/AirdropCrypto.lean`)
+
+The theorems above hold for every `Crypto`; here the parameter is instantiated with the executable implementations the
+driver runs, so the statements are about concrete bytes. What `Secp.recoverPubkey` / `Secp.verify` compute is *validated*
+against k256 (line kind `secp`, and `rc=` on every claim line); nothing about the group law is proved, and ECDSA
+unforgeability / Keccak collision resistance remain assumptions that no theorem uses. -/
+
+/-- `Api::secp256k1_recover_pubkey` in Lean succeeds exactly when the hash has 32 bytes, `r ‖ s` has 64 bytes and the
+parsed recovery succeeds; the result is the uncompressed SEC1 encoding -/
+theorem C16_secp_recoverBytes_some_iff (h rs : Bytes) (rec : Nat) (pk : Bytes) :
+    Secp.recoverBytes h rs rec = some pk ↔
+      h.length = 32 ∧ rs.length = 64 ∧
+      ∃ Q, Secp.recoverPubkey h (Secp.bytesToNat (rs.take 32)) (Secp.bytesToNat (rs.drop 32)) rec = some Q ∧
+        pk = Secp.serialize Q := by
+  unfold Secp.recoverBytes
+  by_cases h1 : h.length = 32 <;> by_cases h2 : rs.length = 64 <;> simp [h1, h2]
+  cases Secp.recoverPubkey h (Secp.bytesToNat (rs.take 32)) (Secp.bytesToNat (rs.drop 32)) rec with
+  | none => simp
+  | some Q => simp [eq_comm]
+
+theorem natToBytesAux_length (v k : Nat) (acc : List Nat) :
+    (Secp.natToBytesAux v k acc).length = k + acc.length := by
+  induction k generalizing v acc with
+  | zero => simp [Secp.natToBytesAux]
+  | succ k ih => simp [Secp.natToBytesAux, ih]; omega
+
+/-- the SEC1 serialisation `04 ‖ X ‖ Y` has 65 bytes -/
+theorem C16_secp_serialize_length (Q : Nat × Nat) : (Secp.serialize Q).length = 65 := by
+  simp [Secp.serialize, Secp.natToBytes, natToBytesAux_length]
+
+/-- a recovered key is 65 bytes -/
+theorem C16_secp_recovered_length (h rs : Bytes) (rec : Nat) (pk : Bytes)
+    (hr : Secp.recoverBytes h rs rec = some pk) : pk.length = 65 := by
+  obtain ⟨_, _, Q, _, rfl⟩ := (C16_secp_recoverBytes_some_iff h rs rec pk).mp hr
+  exact C16_secp_serialize_length Q
+
+/-- recovery refuses r = 0, s = 0, r ≥ n, s ≥ n (`Signature::from_bytes`) … -/
+theorem C16_secp_recover_refuses_range (h : Bytes) (r s rec : Nat)
+    (hb : r = 0 ∨ s = 0 ∨ Secp.n ≤ r ∨ Secp.n ≤ s) : Secp.recoverPubkey h r s rec = none := by
+  unfold Secp.recoverPubkey; rw [if_pos hb]
+
+/-- … and every recovery id other than 0 and 1 -/
+theorem C16_secp_recover_refuses_recid (h : Bytes) (r s rec : Nat) (hrec : 1 < rec) :
+    Secp.recoverPubkey h r s rec = none := by
+  unfold Secp.recoverPubkey; split
+  · rfl
+  · simp
+
+/-- verification is an error (not `false`) for r = 0, s = 0, r ≥ n, s ≥ n -/
+theorem C16_secp_verify_refuses_range (h : Bytes) (r s : Nat) (pk : Bytes)
+    (hb : r = 0 ∨ s = 0 ∨ Secp.n ≤ r ∨ Secp.n ≤ s) : Secp.verify h r s pk = none := by
+  unfold Secp.verify; rw [if_pos hb]
+
+/-- the Ethereum address of a point is at most 20 bytes (exactly 20 when the hash function returns at least 20) -/
+theorem C16_secp_ethAddressRaw_length (Q : Nat × Nat) : (Secp.ethAddressRaw Q).length ≤ 20 := by
+  simp only [Secp.ethAddressRaw, Secp.ethAddressRawWith, List.length_drop]; omega
+
+/-- `ethereum_address_raw` of a serialised point, with the Lean Keccak, is `Secp.ethAddressRaw` -/
+theorem C16_ethereumAddressRaw_real (Q : Nat × Nat) :
+    ethereumAddressRaw realCrypto (Secp.serialize Q) = some (Secp.ethAddressRaw Q) := by
+  have hl : (Secp.natToBytes 32 Q.1 ++ Secp.natToBytes 32 Q.2).length = 64 := by
+    simp [Secp.natToBytes, natToBytesAux_length]
+  simp [ethereumAddressRaw, Secp.serialize, hl, realCrypto, Secp.ethAddressRaw, Secp.ethAddressRawWith]
+
+/-- A valid personal-sign signature, with nothing left abstract: `sig = r ‖ s ‖ v` (65 bytes, `v ∈ {0,1,27,28}`), the
+Lean Keccak digest `h` of the enveloped text (32 bytes), the point `Q` that the Lean secp256k1 recovers from `(h, r, s, v)`
+hashes to `addr`, and `(r, s)` verifies under `Q`. -/
+def SigValidReal (text sig addr : Bytes) : Prop :=
+  ∃ rec Q, sig ≠ [] ∧ getRecoveryParam (sig.getLast?.getD 0) = some rec ∧ sig.dropLast.length = 64 ∧
+    (Keccak.keccak256 (envelope text)).length = 32 ∧
+    Secp.recoverPubkey (Keccak.keccak256 (envelope text))
+      (Secp.bytesToNat (sig.dropLast.take 32)) (Secp.bytesToNat (sig.dropLast.drop 32)) rec = some Q ∧
+    Secp.ethAddressRaw Q = addr ∧
+    Secp.verify (Keccak.keccak256 (envelope text))
+      (Secp.bytesToNat (sig.dropLast.take 32)) (Secp.bytesToNat (sig.dropLast.drop 32)) (Secp.serialize Q) = some true
+
+theorem C16_sigvalid_real_iff (text sig addr : Bytes) :
+    SigValid realCrypto text sig addr ↔ SigValidReal text sig addr := by
+  unfold SigValid SigValidReal
+  constructor
+  · rintro ⟨rec, pk, hne, hrec, hlen, hrecov, haddr, hver⟩
+    obtain ⟨h32, _, Q, hQ, rfl⟩ := (C16_secp_recoverBytes_some_iff _ _ _ _).mp hrecov
+    rw [C16_ethereumAddressRaw_real] at haddr
+    refine ⟨rec, Q, hne, hrec, hlen, h32, hQ, by simpa using haddr, ?_⟩
+    have : Secp.verifyBytes (Keccak.keccak256 (envelope text)) sig.dropLast (Secp.serialize Q) = some true := hver
+    unfold Secp.verifyBytes at this
+    have h32' : (Keccak.keccak256 (envelope text)).length = 32 := h32
+    simpa [h32', hlen] using this
+  · rintro ⟨rec, Q, hne, hrec, hlen, h32, hQ, haddr, hver⟩
+    refine ⟨rec, Secp.serialize Q, hne, hrec, hlen, ?_, ?_, ?_⟩
+    · exact (C16_secp_recoverBytes_some_iff _ _ _ _).mpr ⟨h32, hlen, Q, hQ, rfl⟩
+    · rw [C16_ethereumAddressRaw_real, haddr]
+    · show Secp.verifyBytes (Keccak.keccak256 (envelope text)) sig.dropLast (Secp.serialize Q) = some true
+      unfold Secp.verifyBytes
+      simpa [h32, hlen] using hver
+
+/-- `C16_claim_ok_iff` for the concrete primitives: a claim — decided from the raw bytes of the message alone —
+succeeds exactly when the address string is listed, it decodes to 20 bytes `a`, the signature string is hex for bytes
+`sb` with `SigValidReal (claim text of the sender) sb a`, the address has claims left and the payout is deliverable. -/
+theorem C16_claim_ok_iff_real (s : State) (sender eth sig : Bytes) :
+    (∃ s', claim realCrypto s sender eth sig = .ok s') ↔
+      s.eligible.contains eth = true ∧
+      (∃ a sb, decodeAddress eth = some a ∧ hexDecode sig = some sb ∧
+        SigValidReal (claimText s.template sender) sb a) ∧
+      s.counts eth < s.perAddressLimit ∧ Deliverable s := by
+  rw [C16_claim_ok_iff]
+  constructor
+  · rintro ⟨h1, ⟨a, sb, ha, hs, hv⟩, h3⟩
+    exact ⟨h1, ⟨a, sb, ha, hs, (C16_sigvalid_real_iff _ _ _).mp hv⟩, h3⟩
+  · rintro ⟨h1, ⟨a, sb, ha, hs, hv⟩, h3⟩
+    exact ⟨h1, ⟨a, sb, ha, hs, (C16_sigvalid_real_iff _ _ _).mpr hv⟩, h3⟩
+
+/-- `C16_limit` for the concrete primitives (every history, every byte string) -/
+theorem C16_limit_real (s : State) (ops : List Op) (e : Bytes)
+    (h : s.counts e ≤ s.perAddressLimit) : (run realCrypto s ops).counts e ≤ s.perAddressLimit :=
+  C16_limit realCrypto s ops e h
+
+/-- `C16_total_claims_bound` for the concrete primitives -/
+theorem C16_total_claims_bound_real (s : State) (ops : List Op) (h0 : ∀ e, s.counts e = 0) :
+    totalClaims realCrypto s ops ≤ s.eligible.length * s.perAddressLimit :=
+  C16_total_claims_bound realCrypto s ops h0
+
+/-- a claim whose signature has r = 0, s = 0, r ≥ n or s ≥ n fails, whatever else holds -/
+theorem C16_claim_real_refuses_range (s : State) (sender eth sig sb : Bytes) (hs : hexDecode sig = some sb)
+    (hb : Secp.bytesToNat (sb.dropLast.take 32) = 0 ∨ Secp.bytesToNat (sb.dropLast.drop 32) = 0 ∨
+      Secp.n ≤ Secp.bytesToNat (sb.dropLast.take 32) ∨ Secp.n ≤ Secp.bytesToNat (sb.dropLast.drop 32)) :
+    ∀ s', claim realCrypto s sender eth sig ≠ .ok s' := by
+  intro s' hc
+  obtain ⟨_, ⟨a, sb', _, hs', rec, Q, _, _, _, _, hQ, _⟩, _⟩ := (C16_claim_ok_iff_real s sender eth sig).mp ⟨s', hc⟩
+  rw [hs] at hs'; cases hs'
+  rw [C16_secp_recover_refuses_range _ _ _ _ hb] at hQ
+  cases hQ
 
 end LP
